@@ -47,3 +47,5 @@ func verifPrintedLines(errs []*Error, colour bool) []string {
 }
 func verifC02NativeSharedDefect() {}
 func verifC02NativeRepeat(wf string) {}
+func verifC10NativeSameActionPath(wf string) {}
+func verifC02NativeNested() {}
